@@ -12,7 +12,7 @@ QUICK_BUILDS = [('11', 1, 1, 'O0'), ('11', 0, 0, 'O2'), ('14', 1, 0, 'O2'), ('14
                 ('17', 1, 1, 'O2'), ('17', 0, 0, 'O0'), ('20', 1, 0, 'O0'), ('20', 0, 1, 'O2')]
 ALL_BUILDS = [(s, e, n, o) for s in ('11', '14', '17', '20') for e in (1, 0) for n in (1, 0) for o in ('O0', 'O2')]
 
-VEC = ['sv_3_ntr_u32_std', 'sv_4_tr_u32_re', 'vec_0_tr_i8_std', 'fcv_6_ntr', 'sv_2_tc3_u32_amc']
+VEC = ['sv_3_ntr_u32_std', 'sv_4_tr_u32_re', 'vec_0_tr_i8_std', 'fcv_6_ntr', 'sv_2_tc3_u32_amc', 'sv_3_i32_i32_amc', 'vec_0_i32_u8_re', 'fcv_16_i32']
 FS = ['fs_less_sv4_ntr_std', 'fs_stateful_amcvec_ntr_amc', 'fs_coarse_amcvec_tr_re']
 SS = ['ss_3_less_stdset_ntr_std', 'ss_2_stateful_flatvec_ntr_std']
 
